@@ -53,9 +53,11 @@ def utils_IntMin (a : Int) (b : Int) : Option Int := do
   else
     pure b
 
--- NOT TRANSLATED: utils_GetHmsBySeconds (utils/funcs.go:199): zero value of github.com/ilius/libgostarcal.HMS
+/-- utils/funcs.go:185 -/
+def utils_GetHmsBySeconds (second : Int) : Option GoSem.HMS := do
+  pure ({ Hour := (GoSem.u8 (Int.tdiv second 3600)), Minute := (GoSem.u8 (Int.tmod (Int.tdiv second 60) 60)), Second := (GoSem.u8 (Int.tmod second 60)) } : GoSem.HMS)
 
-/-- utils/funcs.go:67 -/
+/-- utils/funcs.go:53 -/
 def utils_MonthListIsValid (list : (List Int)) : Option Bool := do
   let _r1 ← GoSem.forRange list (fun v => do
       if (!((decide (v > 0)) && (decide (v < 13)))) then
@@ -68,7 +70,7 @@ def utils_MonthListIsValid (list : (List Int)) : Option Bool := do
   | none =>
     pure true
 
-/-- utils/funcs.go:76 -/
+/-- utils/funcs.go:62 -/
 def utils_DayListIsValid (list : (List Int)) : Option Bool := do
   let _r1 ← GoSem.forRange list (fun v => do
       if (!((decide (v > 0)) && (decide (v < 40)))) then
@@ -81,7 +83,7 @@ def utils_DayListIsValid (list : (List Int)) : Option Bool := do
   | none =>
     pure true
 
-/-- utils/funcs.go:85 -/
+/-- utils/funcs.go:71 -/
 def utils_WeekDayListIsValid (list : (List Int)) : Option Bool := do
   let _r1 ← GoSem.forRange list (fun v => do
       if (!((decide (v ≥ 0)) && (decide (v < 7)))) then
@@ -94,35 +96,33 @@ def utils_WeekDayListIsValid (list : (List Int)) : Option Bool := do
   | none =>
     pure true
 
-/-- hms.go:60 -/
+/-- hms.go:35 -/
 def lib_GetTotalSeconds (hms : GoSem.HMS) : Option Int := do
-  let minutes := (((hms).Hour * 60) + (hms).Minute)
-  pure ((minutes * 60) + (hms).Second)
+  pure ((((hms).Hour * 3600) + ((hms).Minute * 60)) + (hms).Second)
 
-/-- hms.go:65 -/
+/-- hms.go:39 -/
 def lib_GetFloatHour (hms : GoSem.HMS) : Option Rat := do
-  let _t1 := (((hms).Hour : Int) : Rat)
-  let _t2 := (((hms).Minute : Int) : Rat)
-  let _t3 := (((hms).Second : Int) : Rat)
-  let h := _t1
-  let m := _t2
-  let s := _t3
-  pure ((h + (m / ((60 : Rat) / 1))) + (s / ((3600 : Rat) / 1)))
+  pure (((((hms).Hour : Int) : Rat) + ((((hms).Minute : Int) : Rat) / ((60 : Rat) / 1))) + ((((hms).Second : Int) : Rat) / ((3600 : Rat) / 1)))
 
--- NOT TRANSLATED: lib_FloatHourToHMS (hms.go:193): call of github.com/ilius/libgostarcal.splitBy (not in the list of translated functions)
+/-- hms.go:137 -/
+def lib_FloatHourToHMS (fh : Rat) : Option GoSem.HMS := do
+  let total := (GoSem.ftoi ((Rat.floor ((fh * ((3600 : Rat) / 1)) + ((1 : Rat) / 2)) : Int) : Rat))
+  pure ({ Hour := (GoSem.u8 (Int.tdiv total 3600)), Minute := (GoSem.u8 (Int.tmod (Int.tdiv total 60) 60)), Second := (GoSem.u8 (Int.tmod total 60)) } : GoSem.HMS)
 
-/-- date.go:56 -/
+/-- date.go:49 -/
 def lib_toUint8 (v : Int) : Option Int := do
-  if (decide ((GoSem.u64 v) > 255)) then
+  if ((decide (v < 0)) || (decide (v > 255))) then
     pure 255
   else
     pure (GoSem.u8 v)
 
--- NOT TRANSLATED: lib_HMS_IsValid (hms.go:70): statement *ast.SwitchStmt
+/-- hms.go:43 -/
+def lib_HMS_IsValid (hms : GoSem.HMS) : Option Bool := do
+  pure (((decide ((hms).Hour < 24)) && (decide ((hms).Minute < 60))) && (decide ((hms).Second < 60)))
 
-/-- date.go:49 -/
+/-- date.go:43 -/
 def lib_Date_IsValid (date : GoSem.Date) : Option Bool := do
-  pure ((decide ((GoSem.u8 ((date).Month - 1)) < 12)) && (decide ((GoSem.u8 ((date).Day - 1)) < 39)))
+  pure ((((decide ((date).Month > 0)) && (decide ((date).Month < 13))) && (decide ((date).Day > 0))) && (decide ((date).Day < 40)))
 
 /-- interval/interval.go:171 -/
 def interval_Less (p : (List interval_IntervalPoint)) (i : Int) (j : Int) : Option Bool := do
@@ -500,33 +500,15 @@ def indian_GetMonthLen (year : Int) (month : Int) : Option Int := do
     else
       pure 30
 
-/-- cal_types/hijri/hijri.go:244 -/
-def hijri_IsLeap (year : Int) : Option Bool := do
-  pure (decide ((← (utils_Mod ((year * 11) + 14) 30)) < 11))
+-- NOT TRANSLATED: hijri_IsLeap (cal_types/hijri/hijri.go:465): call of github.com/ilius/libgostarcal/cal_types/hijri.isLeapYear (not in the list of translated functions)
 
-/-- cal_types/hijri/hijri.go:248 -/
-def hijri_ToJd (date : GoSem.Date) : Option Int := do
-  pure (((((date).Day + (GoSem.ftoi ((Rat.ceil (((59 : Rat) / 2) * (((GoSem.u8 ((date).Month - 1)) : Int) : Rat)) : Int) : Rat))) + (((date).Year - 1) * 354)) + (← (utils_Div ((11 * (date).Year) + 3) 30))) + 1948440)
+-- NOT TRANSLATED: hijri_ToJd (cal_types/hijri/hijri.go:469): call of github.com/ilius/libgostarcal/cal_types/hijri.toJd (not in the list of translated functions)
 
-/-- cal_types/hijri/hijri.go:262 -/
-def hijri_JdTo (jd : Int) : Option GoSem.Date := do
-  let year ← (utils_Div ((30 * ((jd - 1) - 1948440)) + 10646) 10631)
-  let month := (GoSem.u8 (← (utils_IntMin 12 (GoSem.ftoi ((Rat.ceil (((((jd : Int) : Rat) + ((1 : Rat) / 2)) - (((← (hijri_ToJd (← (SrcExt.lib_NewDate year 1 1)))) : Int) : Rat)) / ((59 : Rat) / 2)) : Int) : Rat)))))
-  let day := (GoSem.u8 ((jd - (← (hijri_ToJd (← (SrcExt.lib_NewDate year month 1))))) + 1))
-  (SrcExt.lib_NewDate year month day)
+-- NOT TRANSLATED: hijri_JdTo (cal_types/hijri/hijri.go:473): call of github.com/ilius/libgostarcal/cal_types/hijri.toJd (not in the list of translated functions)
 
-/-- cal_types/hijri/hijri.go:281 -/
-def hijri_GetMonthLen (year : Int) (month : Int) : Option Int := do
-  if (decide ((Int.tmod month 2) = 1)) then
-    pure 30
-  else
-    let _c1 ← (do if (decide (month = 12)) then (hijri_IsLeap year) else pure false)
-    if _c1 then
-      pure 30
-    else
-      pure 29
+-- NOT TRANSLATED: hijri_GetMonthLen (cal_types/hijri/hijri.go:489): call of github.com/ilius/libgostarcal/cal_types/hijri.isLeapYear (not in the list of translated functions)
 
 /-- the functions translated on this run -/
-def translated : List String := ["utils_Mod", "utils_Div", "utils_Divmod", "utils_IntMin", "utils_MonthListIsValid", "utils_DayListIsValid", "utils_WeekDayListIsValid", "lib_GetTotalSeconds", "lib_GetFloatHour", "lib_toUint8", "lib_Date_IsValid", "interval_Less", "julian_IsLeap", "julian_getYearDays", "julian_getMonthDayFromYdays", "julian_ToJd", "julian_JdTo", "julian_GetMonthLen", "jalali_IsLeap", "jalali_getMonthDayFromYdays", "jalali_ToJd", "jalali_JdTo", "jalali_GetMonthLen", "ethiopian_IsLeap", "ethiopian_ToJd", "ethiopian_JdTo", "ethiopian_GetMonthLen", "gprol_IsLeap", "gprol_ToJd", "gprol_JdTo", "gprol_GetMonthLen", "indian_IsLeap", "indian_ToJd", "indian_JdTo", "indian_GetMonthLen", "hijri_IsLeap", "hijri_ToJd", "hijri_JdTo", "hijri_GetMonthLen"]
+def translated : List String := ["utils_Mod", "utils_Div", "utils_Divmod", "utils_IntMin", "utils_GetHmsBySeconds", "utils_MonthListIsValid", "utils_DayListIsValid", "utils_WeekDayListIsValid", "lib_GetTotalSeconds", "lib_GetFloatHour", "lib_FloatHourToHMS", "lib_toUint8", "lib_HMS_IsValid", "lib_Date_IsValid", "interval_Less", "julian_IsLeap", "julian_getYearDays", "julian_getMonthDayFromYdays", "julian_ToJd", "julian_JdTo", "julian_GetMonthLen", "jalali_IsLeap", "jalali_getMonthDayFromYdays", "jalali_ToJd", "jalali_JdTo", "jalali_GetMonthLen", "ethiopian_IsLeap", "ethiopian_ToJd", "ethiopian_JdTo", "ethiopian_GetMonthLen", "gprol_IsLeap", "gprol_ToJd", "gprol_JdTo", "gprol_GetMonthLen", "indian_IsLeap", "indian_ToJd", "indian_JdTo", "indian_GetMonthLen"]
 
 end Starcal.Gen.Src
